@@ -42,6 +42,18 @@ func c09One(env *Env, m *wvlib.Model, c *C09Case) {
 		d := r.Bytes(wvlib.BS * (1 + r.Intn(3)))
 		old = &wvlib.Build{Entries: []wvlib.BEntry{{Path: "a.bin", Kind: 'f', Data: d}, {Path: "b.bin", Kind: 'f', Data: r.Bytes(100)}}}
 		nw = &wvlib.Build{Entries: []wvlib.BEntry{{Path: "renamed.bin", Kind: 'f', Data: d}, {Path: "b.bin", Kind: 'f', Data: r.Bytes(100)}}}
+	case "bsdiff-jumps":
+		// the new file is made of slices of one old file taken at scattered offsets with fresh data in between:
+		// the optimized patch reads the old file through a bsdiff series that seeks back and forth
+		d := r.Bytes(wvlib.BS*(4+r.Intn(3)) + r.Intn(wvlib.BS))
+		var nd []byte
+		for k := 0; k < 2+r.Intn(4); k++ {
+			a := r.Intn(len(d) - 30000)
+			nd = append(nd, d[a:a+10000+r.Intn(20000)]...)
+			nd = append(nd, r.Bytes(2000+r.Intn(30000))...)
+		}
+		old = &wvlib.Build{Entries: []wvlib.BEntry{{Path: "data.bin", Kind: 'f', Data: d}}}
+		nw = &wvlib.Build{Entries: []wvlib.BEntry{{Path: "data.bin", Kind: 'f', Data: nd}}}
 	case "extend-last-block", "truncate-at-boundary":
 		sz := wvlib.BS*(1+r.Intn(2)) + 1000
 		if c.Special == "truncate-at-boundary" {
@@ -64,8 +76,8 @@ func c09One(env *Env, m *wvlib.Model, c *C09Case) {
 		return
 	}
 	patch := res.Patch
-	if c.Optimized {
-		o := optimizeReal(patch, od, nd, &C07Case{Force: r.Bool(), OutComp: Comp{"none", 0}, Partitions: r.Pick(0, 2)}, res)
+	if c.Optimized || c.Special == "bsdiff-jumps" {
+		o := optimizeReal(patch, od, nd, &C07Case{Force: r.Bool() || c.Special == "bsdiff-jumps", OutComp: Comp{"none", 0}, Partitions: r.Pick(0, 2)}, res)
 		if o.err != "" {
 			env.R.Note("optimizer: %s", o.err)
 			return
@@ -88,6 +100,15 @@ func c09One(env *Env, m *wvlib.Model, c *C09Case) {
 		f := dmg.Find("a.bin")
 		f.Data = append(f.Data, r.Bytes(1+r.Intn(wvlib.BS-1001))...)
 		c.Damage = []string{"extend a.bin inside its last block"}
+	case c.Special == "bsdiff-jumps":
+		dmg = old.Clone()
+		f := dmg.Find("data.bin")
+		pos := r.Intn(len(f.Data))
+		if r.Bool() {
+			pos = (pos/32768)*32768 + r.Intn(64) // near the start of a 32 KiB read chunk
+		}
+		f.Data[pos] ^= byte(1 << uint(r.Intn(8)))
+		c.Damage = []string{fmt.Sprintf("flip data.bin@%d", pos)}
 	case c.Special == "truncate-at-boundary":
 		dmg = old.Clone()
 		f := dmg.Find("a.bin")
@@ -208,7 +229,7 @@ func runC09(env *Env) {
 		printOutcome(env)
 		return
 	}
-	n := 150
+	n := 300
 	if env.Thorough() {
 		n = 5000
 	}
@@ -217,6 +238,8 @@ func runC09(env *Env) {
 	for i := range cases {
 		c := &C09Case{PairCase: PairCase{Seed: rng.Next(), Opts: wvlib.PairOpts{MaxFiles: 4, SmallOnly: i%3 != 0}}, Optimized: i%2 == 1, Pristine: i%5 == 0}
 		switch i % 12 {
+		case 1, 5, 9, 10:
+			c.Special = "bsdiff-jumps"
 		case 3:
 			c.Special = "whole-copy-block-multiple"
 		case 7:
